@@ -64,6 +64,9 @@ pub enum Kind {
     /// a mutation-only search over a population of 8..80 individuals whose loop also runs the
     /// four shipped diversity measures (components that only measure and write a state)
     Measures,
+    /// the four shipped boundary repairs on prepared, evaluated populations whose coordinates
+    /// sit on, one ulp beside, and far outside the domain bounds
+    BoundaryMix,
 }
 
 pub const SHIPPED: [Kind; 21] = [
@@ -104,6 +107,7 @@ impl Kind {
             Kind::BigInit => "large-permutation-initialisation",
             Kind::FailMutation => "modify-then-validate-mutation",
             Kind::Measures => "search-with-diversity-measures",
+            Kind::BoundaryMix => "boundary-repair-of-prepared-populations",
         }
     }
     pub fn family(self) -> Family {
@@ -300,6 +304,65 @@ where
 }
 
 // ---------------------------------------------------------------------------------------------
+// workload component: replaces the current population by evaluated real-valued individuals whose
+// coordinates are drawn from a grid around the domain bounds
+
+#[derive(Clone, Serialize)]
+pub struct BoundaryPopulation {
+    pub seed: u64,
+    pub max: usize,
+    /// `Mirror` and `CompleteOneTailedNormalCorrection` loop `while !range.contains(x)` over the
+    /// half-open `Range`: a coordinate exactly on the upper bound is never "contained" and never
+    /// changed - they do not terminate (a statement of the not-claimed C14; DESIGN 6.3). Such
+    /// coordinates are left out for these two.
+    pub avoid_upper: bool,
+}
+
+impl<P> Component<P> for BoundaryPopulation
+where
+    P: HProblem + LimitedVectorProblem<Element = f64>,
+{
+    fn execute(&self, problem: &P, state: &mut State<P>) -> ExecResult<()> {
+        let it = state.try_get_value::<Iterations>().unwrap_or(0) as u64;
+        let mut g = Gen::new(self.seed ^ (0x424F_554Eu64 << 8) ^ (it + 1));
+        let domain = problem.domain();
+        let n = 1 + g.below(self.max);
+        let up = |x: f64| f64::from_bits(if x > 0.0 { x.to_bits() + 1 } else if x < 0.0 { x.to_bits() - 1 } else { 1 });
+        let down = |x: f64| -up(-x);
+        let mut pop: Vec<mahf::Individual<P>> = Vec::with_capacity(n);
+        for _ in 0..n {
+            let solution: Vec<f64> = domain
+                .iter()
+                .map(|r| {
+                    let (lo, hi) = (r.start, r.end);
+                    let w = hi - lo;
+                    match g.below(12) {
+                        0 => lo,
+                        1 if !self.avoid_upper => hi,
+                        2 => up(hi),
+                        3 => down(hi),
+                        4 => up(lo),
+                        5 => down(lo),
+                        6 => hi + w * g.f64_in(0.01, 2.5),
+                        7 => lo - w * g.f64_in(0.01, 0.99),
+                        8 => up(up(hi)),
+                        _ => g.f64_in(lo, hi),
+                    }
+                })
+                .collect();
+            let f = problem.reference(&solution);
+            // most are evaluated: a repair that touches a coordinate has to drop the value
+            let ind = if f.is_nan() || g.chance(0.1) { mahf::Individual::new_unevaluated(solution) } else { mahf::Individual::new(solution, mahf::SingleObjective::try_from(f).expect("harness objective is never NaN")) };
+            pop.push(ind);
+        }
+        let mut pops = state.populations_mut();
+        let _ = pops.try_pop();
+        pops.push(pop);
+        Ok(())
+    }
+}
+
+// ---------------------------------------------------------------------------------------------
 // workload component: a mutation on the public `Mutation` trait + `mutation()` driver that
 // changes a solution coordinate by coordinate and validates each new coordinate afterwards
 
@@ -408,6 +471,32 @@ where
                             ValueOf::<swarm::pso::InertiaWeight<swarm::pso::ParticleVelocitiesUpdate>>::new(),
                         )),
                         state_update: Block::new(vec![swarm::pso::ParticleSwarmUpdate::new(), Box::new(SwarmResize { at_iter, grow, first })]),
+                    },
+                    cond,
+                ))
+                .build())
+        }
+        // the generic `pso()` assembly: like `real_pso`, but the velocity update is built with a
+        // weight of its own - it is the schedule (also a constant one) that decides the stored weight
+        Kind::Pso if c.params.contains_key("update_weight") => {
+            use mahf::state::common::{Iterations as It, Progress};
+            let (sw, ew, v_max) = (c.p("start_weight"), c.p("end_weight"), c.p("v_max"));
+            Ok(Configuration::builder()
+                .do_(initialization::RandomSpread::new(c.pu("num_particles")))
+                .evaluate()
+                .update_best_individual()
+                .do_(pso::pso::<P, Global>(
+                    pso::Parameters {
+                        particle_init: swarm::pso::ParticleSwarmInit::new(v_max)?,
+                        particle_update: swarm::pso::ParticleVelocitiesUpdate::new(c.p("update_weight"), c.p("c_one"), c.p("c_two"), v_max)?,
+                        constraints: boundary::Saturation::new(),
+                        inertia_weight_update: Some(mapping::Linear::new(
+                            sw,
+                            ew,
+                            ValueOf::<Progress<ValueOf<It>>>::new(),
+                            ValueOf::<swarm::pso::InertiaWeight<swarm::pso::ParticleVelocitiesUpdate>>::new(),
+                        )),
+                        state_update: swarm::pso::ParticleSwarmUpdate::new(),
                     },
                     cond,
                 ))
@@ -536,6 +625,25 @@ where
                         .do_(PairwiseDistanceDiversity::new())
                         .do_(TrueDiversity::new())
                         .do_(DistanceToAveragePointDiversity::new())
+                })
+                .build())
+        }
+        Kind::BoundaryMix => {
+            let (seed, max, kind) = (c.seed, c.pu("mix_max") as usize, c.pu("boundary_kind"));
+            Ok(Configuration::builder()
+                .do_(initialization::RandomSpread::new(1))
+                .evaluate()
+                .update_best_individual()
+                .while_(cond, move |b| {
+                    b.do_(Box::new(BoundaryPopulation { seed, max, avoid_upper: kind >= 2 }))
+                        .do_(match kind {
+                            0 => boundary::Saturation::new(),
+                            1 => boundary::Toroidal::new(),
+                            2 => boundary::Mirror::new(),
+                            _ => boundary::CompleteOneTailedNormalCorrection::new(),
+                        })
+                        .evaluate()
+                        .update_best_individual()
                 })
                 .build())
         }
@@ -780,6 +888,10 @@ pub fn gen_case(g: &mut Gen, kind: Kind, o: &GenOpts) -> TCase {
             set("deviation", width * *g.pick(&[0.01, 0.1, 0.5]));
             set("rm", prob(g));
         }
+        Kind::BoundaryMix => {
+            set("mix_max", (1 + g.below(8)) as f64);
+            set("boundary_kind", g.below(4) as f64);
+        }
         Kind::FailMutation => {
             set("population_size", (1 + g.below(6)) as f64);
             // growth by 10 % .. 100 % per pass against a limit of 1 .. 4 domain widths: the
@@ -831,6 +943,9 @@ pub fn gen_case(g: &mut Gen, kind: Kind, o: &GenOpts) -> TCase {
             set("c_one", if g.chance(0.25) { 0.0 } else { g.f64_in(0.0, 3.0) });
             set("c_two", if g.chance(0.25) { 0.0 } else { g.f64_in(0.0, 3.0) });
             set("v_max", width * *g.pick(&[0.001, 0.01, 0.1, 1.0, 10.0]));
+            if g.chance(0.25) {
+                set("update_weight", g.f64_in(0.0, 1.2));
+            }
         }
         Kind::RealSa | Kind::PermSa => {
             set("t_0", *g.pick(&[0.001, 1.0, 10.0, 100.0]));
